@@ -21,8 +21,13 @@ while IFS= read -r f; do
   rel="${f#$D/demo/}"
   # 1. "file -> path" lines  2. any repository-relative path ending in the file name  3. the relative path inside demo/  4. repository root
   dst=$(grep -E "^\s*\S*$base\s+->\s+\S+" "$README" 2>/dev/null | head -1 | sed -E 's/.*->\s+(\S+).*/\1/')
-  if [ -z "$dst" ]; then dst=$(grep -oE "[A-Za-z0-9_./-]+/$base" "$README" 2>/dev/null | grep -v "^/tmp" | head -1); fi
-  if [ -z "$dst" ] && [ "$rel" != "$base" ]; then dst="$rel"; fi
+  if [ -z "$dst" ]; then dst=$(grep -oE "[A-Za-z0-9_./-]+/$base" "$README" 2>/dev/null | grep -v "^/tmp" | sed -E 's#^(\./)?demo/##' | grep "/" | head -1); fi
+  if [ -z "$dst" ] && [ "$rel" != "$base" ]; then
+    # a directory inside demo/: the README names where that directory goes
+    top="${rel%%/*}"
+    parent=$(grep -oE "[A-Za-z0-9_./-]+/$top\b" "$README" 2>/dev/null | grep -v "^/tmp" | sed -E 's#^(\./)?demo/##' | grep "/" | head -1)
+    if [ -n "$parent" ]; then dst="${parent%/$top}/$rel"; else dst="$rel"; fi
+  fi
   if [ -z "$dst" ]; then dst="$base"; fi
   dst=$(echo "$dst" | sed -E 's#^<[^>]*>/?##; s#^\(.*##; s#[),;:]+$##')
   case "$dst" in */) dst="$dst$base";; esac
